@@ -28,7 +28,9 @@ def limit_for(an):
         except OracleInconclusive:
             tmax = max(max(an.tmax), 5000)
     else:
-        tmax = max(an.tmax) if an.stopping else 5000
+        # not a stopping game (in the property's sense): the reward iteration may legitimately never end; a modest budget is enough
+        # for the reachability part, which is what the checks that admit such games look at
+        tmax = max(an.tmax) if an.stopping else 50
     return monitors.step_limit(n, m, tmax)
 
 
